@@ -23,7 +23,7 @@ import json, os, subprocess, shutil, threading, concurrent.futures as cf
 import lib, gen, mcb_oracle as O, exact_common as X
 
 PID = "C04"
-THEOREMS = ["Properties_C04.v"]
+THEOREMS = ["Properties_C04.v", "Properties_C02_trees.v"]
 GROUP = "c04"
 HARNESS = dict(name="c04", srcs=["mpi/c04.cpp"], mpi=True, libs=["-ltbb", "-lboost_timer", "-lboost_mpi", "-lboost_serialization"])
 MPIEXEC = ["mpiexec", "--allow-run-as-root", "--oversubscribe", "--bind-to", "none"]
@@ -266,6 +266,22 @@ class Judge:
                 self.report("judge", "%s with %d ranks: %s" % (ENTRY[alg], P, why), replay_of(i, {"rank_lines": res, "ranks_edge_orders_differ": differ}))
             if self.refok and not why and n <= (16 if tier == "quick" else 20) and m <= 40:
                 todo_ref.append(i)
+        # ---- the four tree-based MPI entry points: rank 0's run must be accepted by the acceptance model of the sequential tree
+        #      variants (each phase a minimum-weight odd candidate); every accepted run is a minimum cycle basis (C02_fvs_trees, C02_iso_trees)
+        try:
+            import trees_common
+            tl, tio, torig = [], [], []
+            for i, (alg, g, res, rf, why, differ) in sorted(parsed.items()):
+                if alg != "signed" and not why:
+                    t = lines[i].split()
+                    tl.append("A %s %s %s %s" % (alg[:3], t[1], t[2], gen.graph_tokens(g))); tio.append(res[0]); torig.append("P=%d %s" % (P, lines[i]))
+            if tl:
+                with self.lock:
+                    st = trees_common.run_trees(c, tier, "weight", lines=tl, io=tio, orig=torig, label="MPI tree variant, rank 0, P=%d" % P)
+                    self.stats["trees_mpi_replayed"] = self.stats.get("trees_mpi_replayed", 0) + st.get("replayed", 0)
+                    self.stats["trees_mpi_accepted"] = self.stats.get("trees_mpi_accepted", 0) + st.get("accepted", 0)
+        except ImportError:
+            pass
         # ---- exact comparison of the signed variant with the models -------------------------------------------
         if todo_fixed:
             ml = [model_lines(gen.graph_tokens(parsed[i][1]), parsed[i][3], P) for i in todo_fixed]
